@@ -86,6 +86,11 @@ class LogicEval:
     def _diffobj(self, e: ast.AST, env) -> Optional[Dict[str, Tuple[str, ...]]]:
         if isinstance(e, ast.Name) and isinstance(env.get(e.id), dict):
             return env[e.id]
+        if isinstance(e, ast.Dict) and e.keys and all(k is not None and op_const(k) for k in e.keys):
+            # a diff written out in place: {Op.AFFECTED: diff[Op.REMOVED], Op.ADDED: [], ...}
+            bs = [self._bucket(x, env) for x in e.values]
+            if all(b is not None for b in bs):
+                return {op_const(k): b for k, b in zip(e.keys, bs)}
         return None
 
     def _opkey(self, e: ast.AST, env) -> Optional[str]:
@@ -263,7 +268,7 @@ class LogicEval:
                     raise Unknown(f"{fn.name}: callee of `{norm(call)[:50]}` not resolved")
                 if depth > 4:
                     raise Unknown("inlining too deep")
-                callee = r[2]
+                callee = self.repo.canon(r[0], r[2])
                 if len(call.args) < 3:
                     raise Unknown(f"{fn.name}: callee diff argument not positional at line {st.lineno}")
                 d = self._diffobj(call.args[2], env)
@@ -319,6 +324,8 @@ def _has_yield(n: ast.AST) -> bool:
 def table(repo: Repo, mod: Module, fn: ast.FunctionDef):
     """-> list of (valuation dict over ADDED/REMOVED/AFFECTED/MOVED, free dict, emissions)"""
     rows = []
+    if getattr(fn, "_canon_of", None) is None:
+        fn = repo.canon(mod, fn)
     ev = LogicEval(repo, mod)
     for bits in itertools.product([False, True], repeat=4):
         val = dict(zip(("ADDED", "REMOVED", "AFFECTED", "MOVED"), bits))
